@@ -141,6 +141,7 @@ OpSet ==
     \cup (IF "extract" \in Fam THEN OpsExtract ELSE {})
     \cup (IF "damage"  \in Fam THEN OpsDamage ELSE {})
     \cup (IF "ext"     \in Fam THEN OpsExt ELSE {})
+    \cup (IF "stray"   \in Fam THEN { [op |-> "env_stray"] } ELSE {})
     \cup (IF "link"    \in Fam THEN OpsLink ELSE {})
     \cup (IF "writer"  \in Fam
           THEN (IF Cardinality({ h \in DOMAIN hd : hd[h].kind = "writer" }) < 1
@@ -151,7 +152,7 @@ OpSet ==
                 THEN OpenReaderOps(nops) ELSE {}) \cup LiveReaderOps
           ELSE {})
 
-IsEnv(op) == op.op \in {"env_content", "env_bucket", "env_ext"}
+IsEnv(op) == op.op \in {"env_content", "env_bucket", "env_ext", "env_stray"}
 
 (* ---- ghost bookkeeping --------------------------------------------------- *)
 
